@@ -8,7 +8,9 @@ deletion timestamp disappears when its last finalizer is removed.
 
 Pool names are natural numbers printed as fixed-width `pNN`, for which Go's
 `strings.Compare` is the numeric order.  `created` is the creation timestamp in seconds.
-API writes succeed (failure injection is not modelled); `ReleasePoolAffinities` succeeds.
+`reconcile` is the pass in which every API write succeeds; `reconcileF` (section "API write
+failures") is the pass in which any subset of the `UpdateStatus` / finalizer `Update` calls
+fails.  `ReleasePoolAffinities` and informer reads always succeed.
 Core Lean only.
 -/
 namespace CalicoVerif.C39
